@@ -26,6 +26,10 @@ func init() {
 		Trusted:     []string{"go/types", "golang.org/x/tools/go/ssa v0.29.0", "bbolt"},
 		Rules: func(c *Ctx) {
 			ruleProtocol(c, "C03.PROTOCOL")
+			// the delete reaches every child store's constraints (their index entries go with the entity)
+			ruleDeleteOrch(c, "C03.ORCH")
+			// an index bucket that is not there is reported as not there
+			ruleMissingPathNil(c, "C03.PATHNIL")
 			ruleOldFirst(c, "C03.OLDFIRST", []string{"uniqueIndex"})
 			ruleUnchangedShortcut(c, "C03.UNCHANGED", []string{"uniqueIndex"})
 			rulePathFresh(c, "C03.PATHFRESH")
@@ -60,6 +64,8 @@ func init() {
 			ruleNoRemoveAfterAdd(c, "C04.PHASES", []string{"fkIndex"})
 			ruleFkDelete(c, "C04.DELETE")
 			ruleRawIdFilter(c, "C04.RAWID")
+			// a refusal (restrict) raised by a constraint of a child store reaches the caller
+			ruleErrorLookedAtOnEveryPath(c, "C04.LOOKEDAT", c.prodFuncs("boltz"))
 			// the cascade re-positions its id cursor with Seek(Current()) after every delete: Seek must really
 			// re-seek the underlying bolt cursor
 			ruleSeekAbsolute(c, "C04.RESEEK")
@@ -77,8 +83,13 @@ func init() {
 		DesignRef:   "DESIGN.md C05",
 		Explanation: "Sites: all functions of link_collection.go and link_collection_rc.go, TypedBucket link-count methods, BaseStore.cleanupLinks.",
 		Trusted:     []string{"go/types", "golang.org/x/tools/go/ssa v0.29.0", "bbolt"},
+		Controls: []controlExpect{
+			{"C05.PUTFRESH", "zzControlBad_C05_PUTFRESH", true},
+			{"C05.PUTFRESH", "zzControlGood_C05_PUTFRESH", false},
+		},
 		Rules: func(c *Ctx) {
 			ruleLinkPair(c, "C05.PAIR")
+			rulePutFresh(c, "C05.PUTFRESH")
 			ruleTaggedOnce(c, "C05.KEYTAG")
 			ruleNoStats(c, "C05.NOSTATS")
 			ruleLinkMissing(c, "C05.MISSING")
@@ -128,6 +139,8 @@ func init() {
 		Trusted:     []string{"go/types", "golang.org/x/tools/go/ssa v0.29.0", "bbolt"},
 		Rules: func(c *Ctx) {
 			ruleDeleteOrch(c, "C06.ORCH")
+			// the cascade finds the referrers of exactly the id being deleted, on every (also nested) delete
+			ruleRawIdFilter(c, "C06.RAWID")
 			rulePairCapture(c, "C06.REMOVERS")
 			ruleOldFirst(c, "C06.STALE", []string{"uniqueIndex", "fkIndex"})
 			ruleLinkCleanup(c, "C06.LINKS")
@@ -1958,7 +1971,40 @@ func ruleDeleteOrch(c *Ctx, rule string) {
 			}
 		}
 	}
-	c.Check(okDeleg, rule, name+": child delegates to parent", p.Pos(fn.Pos()), "a child store hands the delete to its parent", "a child store does not delegate deletes to the parent store (the parent part would survive)")
+	whyDeleg := "a child store does not delegate deletes to the parent store (the parent part would survive)"
+	if okDeleg {
+		// ... on every path: a return the child store takes before handing the delete on (a presence test of its own,
+		// say: an extended child store does not hold every entity it serves) leaves the entity undeleted
+		isDeleg := func(in ssa.Instruction) bool {
+			call, ok := in.(*ssa.Call)
+			if !ok || !invokeNamed(call, "DeleteById") {
+				return false
+			}
+			f, _ := loadedField(call.Call.Value)
+			return sameVar(f, parentFld)
+		}
+		hasParent := func(f Fact) bool {
+			ff, _ := loadedField(f.V)
+			return f.Kind == "nonnil" && sameVar(ff, parentFld)
+		}
+		ps := &pathSearch{fn: fn, fi: fi, start: fn.Blocks[0], stop: isDeleg}
+		ps.skipEdge = func(from, to *ssa.BasicBlock) bool {
+			// not a child store: the rest of the function is the parent's own delete
+			for f := range fi.edgeFacts(from, to) {
+				if hasParent(f) && !f.Pol {
+					return true
+				}
+			}
+			return false
+		}
+		ps.atReturn = func(r *ssa.Return, k knowMap) bool {
+			return fi.HoldsWhere(r.Block(), func(f Fact) bool { return hasParent(f) && f.Pol })
+		}
+		if ps.run() {
+			okDeleg, whyDeleg = false, "a child store can return from DeleteById without handing the delete to its parent (a test of its own comes first): for an extended child store, whose entities need not have child data, the entity is reported missing and stays"
+		}
+	}
+	c.Check(okDeleg, rule, name+": child delegates to parent", p.Pos(fn.Pos()), "a child store hands the delete to its parent, on every path", whyDeleg)
 	// (2) own constraints, then entity removal, on every successful path of the parent
 	var ownPDC, del ssa.CallInstruction
 	var childPDC, handleDel ssa.CallInstruction
